@@ -285,8 +285,10 @@ class Executor:
     def cur_file(self):
         return getattr(self, "_cur_file", "?")
 
-    def split(self, cond, st):
-        """Fork st on a bool-ish. Returns [(True-state|None), (False-state|None)]."""
+    def split(self, cond, st, strong=False):
+        """Fork st on a bool-ish. Returns [(True-state|None), (False-state|None)].
+        strong=True: use a generous solver budget for the feasibility test (needed where an
+        infeasible branch would be unsupported rather than merely redundant)."""
         if isinstance(cond, SBool):
             cond = cond.t
         if isinstance(cond, bool):
@@ -302,10 +304,11 @@ class Executor:
         st_t.pc.append(cond)
         st_f.pc.append(z3.Not(cond))
         if self.feasible is not None and not self._independent(cond, st.pc[:-1] if st is st_t else st.pc):
-            if not self.feasible(st_t.pc):
+            feas = (lambda pc: self.feasible(pc, 5000)) if strong else self.feasible
+            if not feas(st_t.pc):
                 self.stats["pruned"] += 1
                 st_t = None
-            if not self.feasible(st_f.pc):
+            if not feas(st_f.pc):
                 self.stats["pruned"] += 1
                 st_f = None
         return (st_t, st_f)
@@ -458,6 +461,8 @@ class Executor:
             st.env[tgt.id] = v
             return [Outcome("fall", None, st)]
         if isinstance(tgt, (ast.Tuple, ast.List)):
+            if isinstance(v, (tuple, list)) and len(v) != len(tgt.elts):
+                return [Outcome("raise", ExcVal(ValueError, ("unpack",)), st)]
             items = self.unpack(v, len(tgt.elts), tgt)
             sts = [st]
             outs = []
